@@ -385,3 +385,47 @@ package internal
 //@   ensures N2: !hasPrefix(resolved(c, path), "//") ==> urlParseOk(nrURL) && urlParsePath(nrURL) == resolved(c, path)
 //@   ensures N3: err == nil ==> req != nil && fresh(req) && req.Header != nil && req.Method == method && (forall k string :: hget(hv, req.Header, k) == "")
 //@   ensures N4: err != nil ==> req == nil && fromEnv(err)
+
+//@ -- ---------------------------------------------------------------------------------------
+//@ -- C13: the RawXMLValue token relay runs inside encoding/xml's decoder and encoder. Its two explicit panics are
+//@ -- guarded by the type's invariant: tok is never an EndElement (wfRaw), and a value that is decoded again was itself
+//@ -- produced by UnmarshalXML / NewRawXMLElement, i.e. is not marshal-only (wfDec).
+//@ spec wfRaw(v RawXMLValue) bool = !dynIs(v.tok, "xml.EndElement") && (forall i int :: 0 <= i && i < len(v.children) ==> wfRaw(v.children[i]))
+//@ spec wfDec(v RawXMLValue) bool = v.out == nil && !dynIs(v.tok, "xml.EndElement") && (forall i int :: 0 <= i && i < len(v.children) ==> wfDec(v.children[i]))
+//@ func internal.(*RawXMLValue).XMLName(val) (name, ok)
+//@   requires R1: val != nil
+//@   ensures X1: ok <==> namedRaw(*val)
+//@   ensures X2: ok ==> name == rawName(*val)
+//@ func internal.NewRawXMLElement(name, attr, children) (v)
+//@   allocates
+//@   ensures N1: v != nil && fresh(v) && namedRaw(*v) && rawName(*v) == name && v.out == nil && v.children == children
+//@ func internal.EncodeRawXMLElement(v) (raw, err)
+//@   allocates
+//@   ensures E1: err == nil && raw != nil && fresh(raw) && raw.out == v && raw.tok == nil && len(raw.children) == 0
+//@ func internal.(*RawXMLValue).MarshalXML(val, e, start) (err)
+//@   requires R1: val != nil && e != nil && wfRaw(*val)
+//@   allocates
+//@   loop 1 invariant I1: wfRaw(*val) && val.children == old(val.children)
+//@ -- UnmarshalXML: proved one level deep (the value and its direct children are decodable again); the deep invariant
+//@ -- wfDec needs an induction over the stored tree against the frame of the recursive call, which the encoding cannot do
+//@ spec localDec(v RawXMLValue) bool = v.out == nil && !dynIs(v.tok, "xml.EndElement")
+//@ func internal.(*RawXMLValue).UnmarshalXML(val, d, start) (err)
+//@   requires R1: val != nil && d != nil
+//@   allocates
+//@   assigns H_internal_RawXMLValue_tok, H_internal_RawXMLValue_children, H_internal_RawXMLValue_out, E_internal_RawXMLValue
+//@   ensures U1: err == nil ==> localDec(*val) && namedRaw(*val) && (forall i int :: 0 <= i && i < len(val.children) ==> localDec(val.children[i]))
+//@   -- frame: only *val and memory allocated by the call are written
+//@   ensures U2: forall r *RawXMLValue :: r != val && old(allocated(r)) ==> r.tok == old(r.tok) && r.children == old(r.children) && r.out == old(r.out)
+//@   ensures U3: forall s []RawXMLValue, i int :: old(allocated(s)) && 0 <= i && i < len(s) ==> s[i] == old(s[i])
+//@   loop 1 invariant I1: val.out == nil && namedRaw(*val) && (cap(val.children) == 0 || fresh(val.children)) && (forall i int :: 0 <= i && i < len(val.children) ==> localDec(val.children[i]))
+//@   loop 1 invariant I2: forall r *RawXMLValue :: r != val && old(allocated(r)) ==> r.tok == old(r.tok) && r.children == old(r.children) && r.out == old(r.out)
+//@   loop 1 invariant I3: forall s []RawXMLValue, i int :: old(allocated(s)) && 0 <= i && i < len(s) ==> s[i] == old(s[i])
+//@ func internal.(*RawXMLValue).TokenReader(val) (tr)
+//@   requires R1: val != nil && val.out == nil
+//@   allocates
+//@   ensures T1: tr != nil
+//@ func internal.(*rawXMLValueReader).Token(tr) (tok, err)
+//@   requires R1: tr != nil && tr.val != nil && 0 <= tr.child && (forall i int :: 0 <= i && i < len(tr.val.children) ==> tr.val.children[i].out == nil)
+//@   allocates
+//@   assigns H_internal_rawXMLValueReader_start, H_internal_rawXMLValueReader_end, H_internal_rawXMLValueReader_child, H_internal_rawXMLValueReader_childReader
+//@   loop 1 invariant I1: tr.val == old(tr.val) && 0 <= tr.child && (forall i int :: 0 <= i && i < len(tr.val.children) ==> tr.val.children[i].out == nil)
